@@ -45,7 +45,8 @@ func (stream *senderStream) processRTP(now time.Time, header *rtp.Header, payloa
 		stream.lastRTPSN = header.SequenceNumber
 		// update only on first packet of a frame to ensure sender report does not get affected by
 		// processing delay of pushing a large frame which could span multiple packets
-		if header.Timestamp != stream.lastRTPTimeRTP {
+		// (the very first packet always sets the reference, even if its timestamp is 0)
+		if stream.packetCount == 0 || header.Timestamp != stream.lastRTPTimeRTP {
 			stream.lastRTPTimeRTP = header.Timestamp
 			stream.lastRTPTimeTime = now
 		}
